@@ -4,8 +4,10 @@ from . import c03_c06_lib as lib
 
 MODULE = "StorageModel.Properties.C03"
 THEOREMS = ["inv_init", "inv_step", "inv_tx", "inv_reachable", "unique_index_exact", "nullable_unique_index_exact",
-            "set_index_exact", "no_empty_keys", "uniq_injective", "unique_holder", "dup_rejected", "empty_rejected",
-            "error_changes_nothing", "step_refines_spec", "render_eq_spec", "no_panic"]
+            "set_index_exact", "no_empty_keys", "child_data_inside_entity", "uniq_injective", "unique_holder", "dup_rejected",
+            "empty_rejected", "error_changes_nothing", "step_refines_spec", "render_eq_spec", "no_panic"]
+
+PLAIN_SCHEMA = "6e616d65+6e616d65+6e616d65+616c696173+616c696173+616c696173+726f6c6573+726f6c6573+726f6c6573+746167+746167"
 
 
 def _ops(case):
@@ -22,18 +24,38 @@ def stats_of(case, impl):
     inc("histories")
     inc("transactions", len(txs))
     inc("multi_op_transactions", sum(1 for t in txs if "," in t))
+    head = case.split(" ")
+    if len(head) == 4 and head[2] != PLAIN_SCHEMA:
+        n = head[2].split("+")
+        inc("histories_schema_names_differ")
+        if n[0] != n[1] or n[3] != n[4]:
+            inc("histories_symbol_name_differs_from_key")
+        if n[1] != n[2] or n[4] != n[5] or n[7] != n[8]:
+            inc("histories_checker_name_differs_from_key")
+    has_ext = set()
     for op in _ops(case):
         f = op.split(":")
-        if f[0] == "c":
+        k = f[0]
+        if k == "c":
             inc("op_create")
-        elif f[0] == "d":
-            inc("op_delete")
+        elif k == "C":
+            inc("op_create_via_child")
+            has_ext.add(f[1])
+        elif k in "dD":
+            inc("op_delete" if k == "d" else "op_delete_via_child")
+            if f[1] in has_ext:
+                inc("op_delete_of_entity_created_with_child_data")
         else:
-            inc("op_update_full" if f[5] == "*" else "op_patch")
-            if f[5] != "*" and "n" not in f[5]:
+            chk = f[5] if k == "u" else f[6]
+            inc(("op_update_full" if chk == "*" else "op_patch") + ("_via_child" if k == "U" else ""))
+            if k == "u" and f[1] in has_ext:
+                inc("op_update_via_parent_of_entity_created_with_child_data")
+            if chk != "*" and "n" not in chk:
                 inc("op_patch_omitting_name")
-            if f[5] != "*" and "r" not in f[5]:
+            if chk != "*" and "r" not in chk:
                 inc("op_patch_omitting_roles")
+            if chk != "*" and any(c in chk for c in "NARTxyz"):
+                inc("op_patch_naming_a_key_or_symbol_name")
     recs = lib.parse_records(impl) or []
     owner = {}        # (index, value) -> ids seen over time
     deleted_then_back = 0
@@ -73,14 +95,22 @@ MATCHERS = {}
 RULE = ("random histories (seeded) of 5-24 (quick) / 5-40 (thorough) transactions with 1-4 operations each over 3-4 ids, "
         "3 unique-index values (shared by name and alias) + empty/nil, 3 role values (+ rarely the empty role, rarely the blank id): "
         "create / full update / patch with every checker subset (incl. ones omitting the indexed field) / delete, a quarter "
-        "of the written names deliberately taken by another entity; thorough adds all 111,150 histories of length <= 4 over "
-        "2 ids x 2 values with an 18-letter operation alphabet; a history is non-trivial when it has >= 2 committed "
+        "of the written names deliberately taken by another entity; one third of the histories use the indexed store alone "
+        "under the one-name schema, two thirds add the plain child store (creates through it, half of them over an existing "
+        "plain parent entity; updates through it and through the parent; deletes through either store, half of them aimed at "
+        "entities with child data) under one of six schemas (symbol name / stored key / caller-side checker name equal, "
+        "overridden, re-keyed, both, crossed overrides, crossed keys), a sixth of their patches naming a key or symbol name "
+        "instead of the caller-side name; thorough adds all 111,150 histories of length <= 4 over 2 ids x 2 values with an "
+        "18-letter operation alphabet and all 69,904 histories of length <= 4 over 2 ids with a 16-letter alphabet of parent / "
+        "child operations under the all-names-differ schema; a history is non-trivial when it has >= 2 committed "
         "transactions and a rejected duplicate/empty write, a unique value handed over between entities, or an id "
         "re-created after delete; distinct = distinct case line")
 
 ASSUMPTIONS = [
     "bbolt: a bucket is a finite map with keys in byte order, a transaction applies all of its writes or none (rollback is modelled, not verified)",
-    "the entity strategy of the harness store writes name via SetString, alias via SetStringP, roles via SetStringList and raises no error of its own",
+    "the entity strategy of the harness store writes name via SetString, alias via SetStringP, roles via SetStringList (after WithFieldOverrides where the schema says so) and raises no error of its own; the child strategy persists the parent's fields through GetParentContext, then its own field",
+    "the schema's symbol names are pairwise distinct, as are its stored keys (the model keeps one map per index whatever the names)",
+    "the parent store's child-store strategy maps an entity with child data to its stored child entity with the shared fields replaced (boltz/manager_store_test.go)",
     "ids, values and bucket names of the universe contain no '/' (boltz.Traverse builds paths by string concatenation)",
 ]
 
